@@ -524,12 +524,24 @@ def run(ctx: Context) -> None:
             g = _guards(ed2, dels[0])
             texts = {t for t, pol in g if pol}
             fill_only = any(t in ("join == 'outer'", "missing_points == 'fill'") for t in texts)
-            promoted = any('numpy.floating' in t for t in texts) and any('numpy.integer' in t for t in texts)
+            import re as _re5
+            kinds = set()
+            for t in texts:
+                m_ = _re5.search(r"\.kind in (['\"])([a-zA-Z]+)\1", t)
+                if m_:
+                    kinds |= set(m_.group(2))
+                if 'numpy.integer' in t:
+                    kinds |= {'i', 'u'}
+                if 'numpy.bool_' in t or 'bool)' in t:
+                    kinds |= {'b'}
+            promoted = any('numpy.floating' in t for t in texts) and {'i', 'u'} <= kinds
             keeps_fill = any("'_FillValue' in" in t and not pol for t, pol in g)
             ok = fill_only and promoted and keeps_fill
             why = f"del encoding['dtype'] under {sorted(texts)}"
         ctx.check('R05.3', ok, "with 'fill', variables promoted to floating point to hold the misses do not keep an integer on-disk dtype without a fill value (saving would turn the missing values into numbers)", ed2,
                   dels[0] if dels else ed2.node, construct=f"extract_dataframe: {why}")
+        ctx.check('R05.3', ok and 'b' in kinds, "the same holds for boolean variables: a kept encoding['dtype'] = bool saves the missing value of a missed point as True", ed2,
+                  dels[0] if dels else ed2.node, construct=f"stale on-disk kinds dropped: {sorted(kinds)}")
 
     # ------------------------------------------------------------------ R05.6 table rows by position
     with ctx.section('R05.6'):
@@ -577,6 +589,7 @@ VARIANTS = [
     V('C05', 'sel-for-isel', _B, "        return dataset.isel(selector)", "        return dataset.sel(selector)", 'R05.1'),
     V('C05', 'column-reversed', _B, "            dimension: (index_dimension, index_array[:, i])", "            dimension: (index_dimension, index_array[:, -1 - i])", 'R05.1'),
     V('C05', 'dims-reversed', _B, "            for i, dimension in enumerate(dimensions)\n        })", "            for i, dimension in enumerate(reversed(dimensions))\n        })", 'R05.1'),
+    V('C05', 'fill-keeps-boolean-encoding', 'src/emsarray/operations/point_extraction.py', "                and numpy.dtype(encoded_dtype).kind in 'iub'", "                and numpy.dtype(encoded_dtype).kind in 'iu'", 'R05.3'),
     V('C05', 'empty-request-refused', _B, "            grid_kind = self.default_grid_kind\n            dimensions = self.grid_dimensions[grid_kind]\n            index_array = numpy.empty((0, len(dimensions)), dtype=int)\n", "            raise ValueError(\"Need at least one index to select\")\n", 'R05.1'),
     V('C05', 'empty-request-one-phantom-row', _B, "            index_array = numpy.empty((0, len(dimensions)), dtype=int)", "            index_array = numpy.zeros((1, len(dimensions)), dtype=int)", 'R05.1'),
     V('C05', 'empty-request-float-indexes', _B, "            index_array = numpy.empty((0, len(dimensions)), dtype=int)", "            index_array = numpy.empty((0, len(dimensions)))", 'R05.1'),
